@@ -134,9 +134,10 @@ Proof. exact enr_malformed_witness. Qed.
 
 (* ---- the model IS the current source ---- *)
 
-(* The bodies of the four functions as regenerated from batchENR.go / batchDNE.go
-   by the translator on this run, executed by the interpreter of
-   Model/PayShapeTable.v, return the model functions' results for ALL inputs. *)
+(* The bodies of the functions as regenerated from batchENR.go / batchDNE.go /
+   cmd/achcli/describe/file.go by the translator on this run, executed by the
+   interpreter of Model/PayShapeTable.v, return the model functions' results
+   for ALL inputs. *)
 Theorem C20_enr_string_source : forall i,
   run_func gen_enr_string (enr_rec i) [] = Some [VBy (enr_string i)].
 Proof. exact gen_enr_string_ok. Qed.
@@ -147,18 +148,52 @@ Theorem C20_dne_string_source : forall i,
 Proof. exact gen_dne_string_ok. Qed.
 Print Assumptions C20_dne_string_source.
 
-Theorem C20_enr_parse_source : forall pri,
-  run_func gen_enr_parse VNil [addenda_rec pri] = Some (enr_parse_result pri).
+Theorem C20_enr_parse_source : forall pri seq eseq,
+  run_func gen_enr_parse VNil [addenda_rec pri seq eseq] = Some (enr_parse_result pri).
 Proof. exact gen_enr_parse_ok. Qed.
 Print Assumptions C20_enr_parse_source.
 
-Theorem C20_dne_parse_source : forall pri,
-  run_func gen_dne_parse VNil [addenda_rec pri] = Some (dne_parse_result pri).
+Theorem C20_dne_parse_source : forall pri seq eseq,
+  run_func gen_dne_parse VNil [addenda_rec pri seq eseq] = Some (dne_parse_result pri).
 Proof. exact gen_dne_parse_ok. Qed.
 Print Assumptions C20_dne_parse_source.
+
+(* the whole pipeline: dumpAddenda05 (regenerated) calling the parse function and
+   String() (regenerated) writes the header line and the row whose first cell is
+   [describe_enr] / [describe_dne], for every payment string and every flag set;
+   for other batch types the raw field *)
+Theorem C20_dump_enr_source : forall names accts corr pri seq eseq,
+  run_proc (ext_table pay_funcs) gen_dump_addenda05 (dump_args "BatchENR" names accts corr pri seq eseq)
+  = Some [VBy (addenda05_lines (describe_enr names accts pri) seq eseq)].
+Proof. exact gen_dump_enr_ok. Qed.
+Print Assumptions C20_dump_enr_source.
+
+Theorem C20_dump_dne_source : forall names accts corr pri seq eseq,
+  run_proc (ext_table pay_funcs) gen_dump_addenda05 (dump_args "BatchDNE" names accts corr pri seq eseq)
+  = Some [VBy (addenda05_lines (describe_dne names accts pri) seq eseq)].
+Proof. exact gen_dump_dne_ok. Qed.
+Print Assumptions C20_dump_dne_source.
+
+Theorem C20_enr_source_name_hidden : forall pri i accts corr seq eseq w,
+  parse_enr pri = Some i -> nospace w -> nostar w = true -> (3 <= length w)%nat ->
+  exists cell,
+    run_proc (ext_table pay_funcs) gen_dump_addenda05 (dump_args "BatchENR" true accts corr pri seq eseq)
+      = Some [VBy (addenda05_lines cell seq eseq)] /\
+    (substring w cell -> exists f, In f (enr_beside_name (mask_enr true accts i)) /\ substring w f).
+Proof. exact gen_dump_enr_name_hidden. Qed.
+Print Assumptions C20_enr_source_name_hidden.
+
+Theorem C20_dump_other_batches_source : forall names accts corr pri seq eseq,
+  run_proc (ext_table pay_funcs) gen_dump_addenda05 (dump_args "Batch" names accts corr pri seq eseq)
+  = Some [VBy (addenda05_lines (alphaField pri 80) seq eseq)].
+Proof. exact gen_dump_other_ok. Qed.
 
 Theorem C20_enr_struct_fields : gen_enr_struct = enr_struct_fields.
 Proof. exact gen_enr_struct_ok. Qed.
 
 Theorem C20_dne_struct_fields : gen_dne_struct = dne_struct_fields.
 Proof. exact gen_dne_struct_ok. Qed.
+
+Theorem C20_payment_information_single_path :
+  gen_dump_other_uses = ["dumpAddenda17:PaymentRelatedInformationField"]%string.
+Proof. exact gen_dump_other_uses_ok. Qed.
